@@ -291,3 +291,32 @@ class OffsetDateTimeG(Gen):
         d = LocalDateG(self.cal).realize(v.fields["_OffsetDateTime__local_date"], ev, ctx)
         t = OffsetTimeG().realize(v.fields["_OffsetDateTime__offset_time"], ev, ctx)
         return OffsetDateTime._ctor(local_date=d, offset_time=t)
+
+
+def ZoneYearOffsetG() -> Obj:
+    from pyvc.contracts import Bool
+    from pyvc.sym import And, Or
+
+    def inv(o):
+        f = lambda n: V.fld(o, "_ZoneYearOffset__" + n)  # noqa: E731
+        dom = f("day_of_month")
+        return And(
+            f("transition_mode") >= 0, f("transition_mode") <= 2, f("month_of_year") >= 1, f("month_of_year") <= 12,
+            Or(And(dom >= 1, dom <= 31), And(dom >= -31, dom <= -1)), f("day_of_week") >= 0, f("day_of_week") <= 7,
+            # the format stores the time of day in whole milliseconds
+            V.lt_nanos(f("time_of_day")) % V.NPMS == 0,
+        )
+
+    return Obj(
+        "pyoda_time.time_zones._zone_year_offset:_ZoneYearOffset",
+        {
+            "_ZoneYearOffset__transition_mode": Int(),
+            "_ZoneYearOffset__month_of_year": Int(),
+            "_ZoneYearOffset__day_of_month": Int(),
+            "_ZoneYearOffset__day_of_week": Int(),
+            "_ZoneYearOffset__advance_day_of_week": Bool(),
+            "_ZoneYearOffset__add_day": Bool(),
+            "_ZoneYearOffset__time_of_day": LocalTimeG(),
+        },
+        inv=inv,
+    )
